@@ -519,7 +519,8 @@ async fn run_tls(cfg: &CConfig, ch: &mut Chooser<Action>, ctx: &mut RunCtx) -> O
         (Cert::IpOnly, TlsHost::Ip) => true,
         _ => false,
     };
-    let c2s = Pipe::new(cfg.pipe_cap);
+    // unbounded during the handshake, the configured capacity applies to the payload phase
+    let c2s = Pipe::new(1 << 20);
     let s2c = Pipe::new(1 << 20);
     // the connector's half reads what the server sent (s2c) and writes towards the server (c2s)
     let half = Half { rx: s2c.clone(), tx: c2s.clone(), shutdown: false };
@@ -541,6 +542,7 @@ async fn run_tls(cfg: &CConfig, ch: &mut Chooser<Action>, ctx: &mut RunCtx) -> O
     let mut task = TaskWake::new();
     let mut parked = false;
     let mut outbox: Vec<u8> = Vec::new(); // server -> client bytes not yet delivered
+    let mut out_tail = 0usize;
     let mut stream: Option<Pin<Box<dyn Rw>>> = None;
     let mut outcome: Option<bool> = None;
     let mut io_task = TaskWake::new();
@@ -561,12 +563,13 @@ async fn run_tls(cfg: &CConfig, ch: &mut Chooser<Action>, ctx: &mut RunCtx) -> O
         if fut.is_some() && (!parked || task.woken()) {
             en.push((Action::C(CAction::PollFut), 5));
         }
-        if !outbox.is_empty() {
+        let live = fut.is_some() || stream.is_some();
+        if !outbox.is_empty() && live {
             for f in 0..3u8 {
                 en.push((Action::C(CAction::ServerSend(f)), 3));
             }
         }
-        if !c2s.borrow().buf.is_empty() {
+        if !c2s.borrow().buf.is_empty() && live {
             en.push((Action::C(CAction::ServerRecv), 5));
         }
         if stream.is_some() {
@@ -620,6 +623,7 @@ async fn run_tls(cfg: &CConfig, ch: &mut Chooser<Action>, ctx: &mut RunCtx) -> O
                                 }
                                 ctx.bump("probe.tls_connected");
                                 stream = Some(s);
+                                c2s.borrow_mut().capacity = cfg.pipe_cap;
                             }
                             Err(e) => {
                                 if valid {
@@ -635,11 +639,7 @@ async fn run_tls(cfg: &CConfig, ch: &mut Chooser<Action>, ctx: &mut RunCtx) -> O
                 }
             }
             CAction::ServerSend(frac) => {
-                let n = match frac {
-                    0 => outbox.len(),
-                    1 => (outbox.len() / 2).max(1),
-                    _ => 1,
-                };
+                let n = crate::duplex::delivery_len(&outbox, frac, &mut out_tail);
                 let d: Vec<u8> = outbox.drain(..n).collect();
                 s2c.borrow_mut().push(&d);
                 ev!(ctx, "server delivers (mode {frac})");
